@@ -357,6 +357,40 @@ func c02Cell(p vbase.Params, r *vbase.Result, scheme string, cache uint, n, repI
 		}
 		return ps
 	}
+	// one genuine signature re-cut into a "quorum": the claimed signer ids after the first are carved out of the signature's
+	// own bytes and the rest of the bytes is distributed over the entries, so that signer ids followed by signature bytes
+	// read exactly like the single signature the verifier has already checked (and may have cached)
+	recut := func(signer hotstuff.ID, msg []byte) hotstuff.QuorumSignature {
+		if scheme == crypto.NameBLS12 || q < 2 {
+			return nil
+		}
+		_ = warm.Auth.Verify(w.assemble(honest([]hotstuff.ID{signer}, msg), nil, 0), msg)
+		x := w.rawSig(signer, msg)
+		if len(x) < 4*(q-1)+q {
+			return nil
+		}
+		ps := []piece{{Claim: signer, Src: signer, Msg: msg}}
+		rest := x[4*(q-1):]
+		chunk := len(rest) / q
+		ps[0].Raw = rest[:chunk]
+		distinct := map[hotstuff.ID]bool{signer: true}
+		for k := 0; k < q-1; k++ {
+			id := hotstuff.ID(uint32(x[4*k]) | uint32(x[4*k+1])<<8 | uint32(x[4*k+2])<<16 | uint32(x[4*k+3])<<24)
+			distinct[id] = true
+			end := chunk * (k + 2)
+			if k == q-2 {
+				end = len(rest)
+			}
+			ps = append(ps, piece{Claim: id, Src: signer, Msg: msg, Raw: rest[chunk*(k+1) : end]})
+		}
+		if len(distinct) != q {
+			return nil
+		}
+		return w.assemble(ps, nil, 0)
+	}
+	if sig := recut(one, bBytes); sig != nil {
+		mut("one-vote-recut-as-quorum", sig, B.View(), B.Hash())
+	}
 	if scheme != crypto.NameBLS12 {
 		mut("repeated-signer-q", w.assemble(rep(one, q, bBytes), nil, 0), B.View(), B.Hash())
 		mut("repeated-signer-n", w.assemble(rep(one, n, bBytes), nil, 0), B.View(), B.Hash())
@@ -499,6 +533,9 @@ func c02Cell(p vbase.Params, r *vbase.Result, scheme string, cache uint, n, repI
 	}
 	mutT := func(class string, sig hotstuff.QuorumSignature, view hotstuff.View) {
 		present(c02Case{Typ: "TC", Class: class, TC: hotstuff.NewTimeoutCert(sig, view)}, false)
+	}
+	if sig := recut(T[0], tvb); sig != nil {
+		mutT("one-timeout-recut-as-quorum", sig, tv)
 	}
 	if scheme != crypto.NameBLS12 {
 		mutT("repeated-signer-q", w.assemble(rep(T[0], q, tvb), nil, 0), tv)
